@@ -48,6 +48,8 @@ OPTION_PAIR_ROWS = [
 #   (row id, parameter key, op, literal, reason)
 PARAM_THRESHOLD_ROWS = [
     ("restarts.rhoend_scale<=0", "restarts.rhoend_scale", "le", 0.0, "a restart factor of 0 makes rhoend 0 (division by rhoend in reduce_rho); fix 20b5f8b"),
+    # op "ge": the rejected values are those >= the literal (the guard reads `params(key) >= lit`, normalised to `lit <= params(key)`)
+    ("tr_radius.alpha1>=1", "tr_radius.alpha1", "ge", 1.0, "alpha1 = 1 never reduces rho: solve does not return; fix 4adebb0"),
 ]
 
 # an option that contradicts an argument: (row id, parameter key, truth of the key in the rejected combination, names on the smaller side of the comparison,
